@@ -603,8 +603,19 @@ mutual
       | .error er => .error er
       | .ok st1 =>
         let st1 := braceClear st1
-        if st1.tinc st1.sub then .error (.diag "array of unknown size has empty initializer")
-        else .ok st1
+        -- empty braces at the start of an array's list initialize its first element:
+        -- `if (p.cur == p.sub && p.cur->type->kind == TYPEARRAY) focus(&p);`
+        let entered : Except Err St :=
+          if st1.cur = some st1.sub then
+            match (st1.obj st1.sub).ty with
+            | .array _ _ => focus st1
+            | _ => .ok st1
+          else .ok st1
+        match entered with
+        | .error er => .error er
+        | .ok st2 =>
+          if st2.tinc st2.sub then .error (.diag "array of unknown size has empty initializer")
+          else .ok st2
     | .list (.cons ds1 i1 rest) =>
       match preStep st ds with
       | .error er => .error er
